@@ -89,11 +89,14 @@ def run(ctx):
             res.ok("fn-identity:own-name", ewa.where(), "the function's own name is bound to a clone of the Arc (same identity)")
         else:
             res.bad("fn-identity:own-name", "exec_with_args no longer binds the function's own name to a clone of the same Arc<Function>", ewa.where())
+    from ..owners import for_crate
+    own = for_crate(lib)
     for u, methods in USERS.items():
         b = lib.body(u)
         if not res.anchor(b is not None, u):
             continue
-        cmp_calls = [c for c in b.calls if c.path in ("std::cmp::PartialEq::eq", "std::cmp::PartialEq::ne")]
+        # the function and the helpers / closures that belong to it alone
+        cmp_calls = [c for hb in own.cluster(u) for c in hb.calls if c.path in ("std::cmp::PartialEq::eq", "std::cmp::PartialEq::ne")]
         good = [c for c in cmp_calls if c.self_ty in ("variable::Variable", "&variable::Variable") and c.path.rsplit("::", 1)[-1] in methods]
         other = [c for c in cmp_calls if c not in good]
         if good and not other:
